@@ -18,11 +18,15 @@ def job_fn(job):
     except tv.CompileError as e:
         return dict(status='compile-raises', error=str(e))
     plugin = tvdelay.ChainPlugin()
+    if job['solver'] == 'euler' and any(e.delay is not None and e.spread is None for e in spec.edges):
+        plugin = tvdelay.Composite(tvdelay.ChainPlugin(), tvdelay.RingBufferPlugin(DT))
+    elif any(e.delay is not None and e.spread is None for e in spec.edges):
+        plugin = tvdelay.Composite(tvdelay.ChainPlugin(), tvdelay.HistPlugin(DT, True))
     res = tvspec.validate(spec, c, tally, vectorized=job['vectorize'], plugin=plugin,
                           t_sym=(3 if job['solver'] == 'euler' else None))
     # unit gain and mean delay of every discovered chain (exact rational arithmetic on the discovered rates)
     chains = {}
-    for j, (src, rates) in plugin.aux_info.items():
+    for j, (src, rates) in getattr(plugin, 'aux_info', getattr(getattr(plugin, 'plugins', [None])[0], 'aux_info', {})).items():
         chains[j] = dict(src='/'.join(src), order=len(rates), rates=[str(r) for r in rates],
                          mean=str(sum(1 / r for r in rates)))
     res['chains'] = list(chains.values())[:12]
